@@ -486,4 +486,52 @@ class NativeMonotone(NativeCheck):
         return str(inp)
 
 
-NATIVE = [NativeMonotone()]
+class NativeSameAnchor(NativeCheck):
+    name = 'same_anchor_events_from_two_files'
+    props = ('C05',)
+    functions = ('moPepGen/seqvar/VariantRecordPoolOnDisk.py:VariantRecordPoolOnDisk.__getitem__',)
+    bounded_for = ('adding a GVF file whose record shares position, reference and type with a record of another file (two alternative splicing '
+                   'insertions at one exon junction with different donor ranges) only adds peptides, in either file order')
+    bound = 'demo reference, transcript ENST00000614168.2, insertion at gene position 405 with donor 405-750 vs 411-750 (and 420-750); 2 scenarios'
+    quick_budget_s = 120
+    thorough_budget_s = 240
+
+    def cases(self, rng, tier):
+        yield dict(a=(405, 750, 'SE-405'), b=(411, 750, 'A3SS-405-411'))
+        yield dict(a=(405, 750, 'SE-405'), b=(420, 750, 'A3SS-405-420'))
+
+    def check(self, inp):
+        import tempfile, shutil, os
+        from pathlib import Path
+        from . import cv_run
+        d = Path(tempfile.mkdtemp(prefix='verif_c05_'))
+        try:
+            template = cv_run.DATA / 'alternative_splicing' / 'alternative_splicing.gvf'
+            header = [l for l in open(template) if l.startswith('#')]
+
+            def gvf(name, spec):
+                ds, de, vid = spec
+                path = d / name
+                with open(path, 'w') as fh:
+                    fh.writelines(header)
+                    fh.write(f'ENSG00000128408.9\t405\t{vid}\tC\t<INS>\t.\t.\tTRANSCRIPT_ID=ENST00000614168.2;DONOR_GENE_ID=ENSG00000128408.9;'
+                             f'DONOR_START={ds};DONOR_END={de};GENE_SYMBOL=RIBC2;GENOMIC_POSITION="chr22:405-406"\n')
+                return str(path)
+            ga, gb = gvf('a.gvf', inp['a']), gvf('b.gvf', inp['b'])
+            run = lambda gv: set(cv_run.run_call_variant(gvfs=gv, max_adjacent_as_mnv=2)[0].values())
+            only_a, only_b, ab, ba = run([ga]), run([gb]), run([ga, gb]), run([gb, ga])
+            for nm, sub in (('a', only_a), ('b', only_b)):
+                for fn, full in (('a+b', ab), ('b+a', ba)):
+                    lost = sorted(sub - full)
+                    if lost:
+                        return dict(call=f'callVariant [{nm}] vs [{fn}] with {inp}', observed=dict(lost=lost[:6], n_lost=len(lost)),
+                                    expected='the single-file output is a subset of the two-file output', signature='not-monotone:gvf-added-same-anchor')
+        finally:
+            shutil.rmtree(d, ignore_errors=True)
+        return None
+
+    def nontrivial(self, inp):
+        return str(inp)
+
+
+NATIVE = [NativeMonotone(), NativeSameAnchor()]
